@@ -67,7 +67,12 @@ def tlc_ok(res, what):
     """TLC finished exploring without evaluation errors (rc 0). Anything else is a machinery failure
     unless the caller handles invariant violations (rc 12) itself."""
     if res['rc'] != 0:
-        tail = '\n'.join(l for l in res['out'].splitlines() if not l.startswith('"@@'))[-4000:]
+        lines = [l for l in res['out'].splitlines() if not l.startswith('"@@')]
+        errs = []
+        for n, l in enumerate(lines):
+            if l.startswith('Error:') or 'Exception' in l:
+                errs += lines[n:n + 12]
+        tail = '\n'.join(errs[:60]) if errs else '\n'.join(lines)[-3000:]
         raise MachineryFailure('TLC failed (%s), rc=%d:\n%s' % (what, res['rc'], tail))
 
 
